@@ -460,6 +460,7 @@ def _rate_classes(run, prog):
         _degenerate_axes(run, ci, init, K)
         _nonneg(run, ci, ev, K)
     _degenerate_1d(run, prog)
+    _call_forwards(run, prog)
     if n_interp < 13:
         raise AnalysisError('only %d interpolating rate classes found (floor 13)' % n_interp)
     run.floor('C07-R4', 40, 'obligations')
@@ -560,6 +561,38 @@ def _degenerate_axes(run, ci, init, K):
                 run.undecided('C07-R7', '%s.%s' % (ci.name, fld), 'branch form not recognised: ' + norm(v)[:60])
 
 
+def _call_forwards(run, prog):
+    """R9: the Python call syntax of a rate is its evaluate(): __call__(self, a, b, ...) forwards exactly its own parameters, in order, to
+    self.evaluate -- in the core base classes (which the OpenADAS rates inherit __call__ from) and in any rate class that overrides it."""
+    run.describe('C07-R9', '__call__ of every rate class forwards its parameters to evaluate() in order')
+    n = 0
+    for ci in sorted(prog.classes.values(), key=lambda c: c.qual):
+        if not (ci.mod.relpath == CORE or ci.mod.relpath in RATES):
+            continue
+        cf, evf = ci.methods.get('__call__'), ci.methods.get('evaluate')
+        if cf is None:
+            continue
+        n += 1
+        run.subject('C07-R9')
+        ps = [a_.arg for a_ in cf.args.args[1:]]
+        calls = [c for c in ast.walk(cf) if isinstance(c, ast.Call) and norm(c.func) == 'self.evaluate']
+        rets = [r for r in ast.walk(cf) if isinstance(r, ast.Return) and r.value is not None]
+        if len(calls) != 1 or len(rets) != 1 or rets[0].value is not calls[0]:
+            run.undecided('C07-R9', ci.name + '.__call__', 'does not return a single self.evaluate(...) call')
+            continue
+        got = [norm(a_) for a_ in calls[0].args] + ['%s=%s' % (k.arg, norm(k.value)) for k in calls[0].keywords]
+        eps = [a_.arg for a_ in evf.args.args[1:]] if evf is not None else ps
+        bound = dict(zip(eps, [norm(a_) for a_ in calls[0].args]))
+        bound.update({k.arg: norm(k.value) for k in calls[0].keywords if k.arg})
+        if len(eps) == len(ps) and [bound.get(e_) for e_ in eps] == ps:
+            run.ok('C07-R9', ci.name + '.__call__', 'evaluate(%s)' % ', '.join(got), sample=False)
+        else:
+            run.fail('C07-R9', '%s|%s|__call__|forwarding' % (ci.mod.name, ci.name), ci.mod.relpath, calls[0].lineno,
+                     '%s.__call__(%s) calls evaluate(%s): rate(%s) does not evaluate the rate at those arguments (two of them are exchanged or dropped)'
+                     % (ci.name, ', '.join(ps), ', '.join(got), ', '.join(ps)))
+    run.floor('C07-R9', 8)
+
+
 def _is_interp1(e):
     return isinstance(e, ast.Call) and (dotted(e.func) or '').split('.')[-1] == 'Interpolator1DArray' and len(e.args) >= 2
 
@@ -633,7 +666,21 @@ def _degenerate_1d(run, prog):
                              % (tab, '' if pos else 'not ', norm(test)))
                     continue
                 if m is None:
-                    run.undecided('C07-R7', what, 'length test not recognised: ' + norm(test)[:50])
+                    # a recognisable length test, but on another array than the table / axis of this interpolant (a neighbouring component):
+                    # the constant branch is then taken for the wrong component
+                    others = set()
+                    for st_ in ast.walk(fn):
+                        if isinstance(st_, ast.Assign) and len(st_.targets) == 1 and isinstance(st_.targets[0], ast.Name):
+                            others.add(st_.targets[0].id)
+                    others |= {a_.arg for a_ in fn.args.args}
+                    foreign = [o for o in sorted(others - {tab, axis}) if _more_than_one(test, (o,)) is not None]
+                    if foreign:
+                        run.fail('C07-R7', key + '|foreign-length', mi.relpath, line,
+                                 'the choice between the interpolant over %s and its single-point constant is made on the length of %s, not of %s: with '
+                                 'axes of different lengths the component is frozen at its first value, or the constructor fails on valid data'
+                                 % (tab, foreign[0], tab))
+                    else:
+                        run.undecided('C07-R7', what, 'length test not recognised: ' + norm(test)[:50])
                     continue
                 sv = single if not isinstance(single, ast.Name) else res(single)
                 if not (isinstance(sv, ast.Call) and (dotted(sv.func) or '').split('.')[-1] == 'Constant1D' and len(sv.args) == 1):
@@ -896,6 +943,8 @@ _BEAM = 'cherab/openadas/rates/beam.pyx'
 _CX = 'cherab/openadas/rates/cx.pyx'
 _AT = 'cherab/openadas/rates/atomic.pyx'
 MUTANTS = [
+    dict(name='beam-cx-call-forwards-swapped', file='cherab/core/atomic/rates.pyx', find="        return self.evaluate(energy, temperature, density, z_effective, b_field)", replace="        return self.evaluate(energy, temperature, density, b_field, z_effective)", expect='C07-R9'),
+    dict(name='cx-single-point-test-on-neighbouring-table', file='cherab/openadas/rates/cx.pyx', find="if len(qni) > 1 else Constant1D(qni[0])", replace="if len(qti) > 1 else Constant1D(qni[0])", expect='C07-R7'),
     dict(name='radiated-power-own-log10', file='cherab/openadas/rates/radiated_power.pyx',
          find="from libc.math cimport INFINITY, log10\n", replace="from libc.math cimport INFINITY, M_LOG10E, log\n\n\ncdef inline double log10(double x) noexcept nogil:\n    return M_LOG10E * log(x)\n", expect='C07-R6'),
     dict(name='single-density-branch-wrong-argument', file=_BEAM, find="IsoMapper2D(Arg2D('x'), Interpolator1DArray(np.log10(e), sen[:, 0]", replace="IsoMapper2D(Arg2D('y'), Interpolator1DArray(np.log10(e), sen[:, 0]", occurrence=0, of=3, expect='C07-R7'),
